@@ -19,6 +19,7 @@ import ast
 import math
 
 from mmsa import au, cfg as cfgmod, dataflow, pathcond
+from mmsa.types import FuncCtx
 from mmsa.core import Undecided, norm, walk_no_nested
 
 CLS = 'tbrmmdesignparameters.TBRMMDesignParameters'
@@ -282,6 +283,12 @@ def r2_helpers(repo, rep, cls, sites):
       n_accept += 1
       def type_lit(e, t):
         s = norm(e)
+        if (not t) and s.startswith('any(') and isinstance(e, ast.Call) and e.args and isinstance(e.args[0], (ast.GeneratorExp, ast.ListComp)):
+          # not any(not int and not float for x in v)  ==  all(int or float for x in v)
+          dnf_ = pathcond.literals(e.args[0].elt, False)
+          elems = [norm(a_) for c_ in dnf_ for a_, tv_ in c_ if tv_]
+          return len(dnf_) >= 1 and all(len(c_) == 1 for c_ in dnf_) and any('int' in x_ for x_ in elems) and any('float' in x_ for x_ in elems) \
+              and all(x_.startswith('isinstance(') for x_ in elems)
         return t and s.startswith('isinstance(') and (s.endswith(', int)') or s.endswith(', float)') or 'int' in s and 'float' in s) \
             or (t and s.startswith('all(') and 'isinstance(' in s and 'int' in s and 'float' in s)
       def cmp_lit_factory(opparam, boundparam, order, which):
@@ -352,6 +359,12 @@ def r3_exceptions(repo, rep, cls, sites):
       if isinstance(sub, ast.Raise):
         n_raise += 1
         exc = sub.exc
+        if isinstance(exc, ast.Name):
+          # raise error, with error = ValueError(...) assigned before
+          rctx = FuncCtx.of(f)
+          rn = rctx.node_at(sub)
+          if rn is not None:
+            exc = rctx.rd.expand(rn, exc)[0]
         exn = norm(exc.func) if isinstance(exc, ast.Call) else (norm(exc) if exc is not None else 're-raise')
         rep.check(exn == 'ValueError', 'R3/only-ValueError', '%s raises ValueError' % f.name, f.qualname, norm(sub)[:100],
                   '%s rejects with %s instead of ValueError' % (f.name, exn), f.loc(sub))
